@@ -85,6 +85,16 @@ def _one_qubit_product(classes: List[str]):
     return cl.prod(ms)
 
 
+def _transformed_names(fn: ast.AST) -> set:
+    """local names handed (first argument) to a tableau transformation `transform.<gate>(name, ...)` — the working tableau(x)"""
+    out = set()
+    for c in calls_in(fn):
+        cn = call_name(c) or ""
+        if cn.startswith("transform.") and c.args and isinstance(c.args[0], ast.Name):
+            out.add(c.args[0].id)
+    return out
+
+
 def _tableau_product(repo: Repo, names: List[str]):
     u = cl.I2
     for n in names:
@@ -180,7 +190,7 @@ def rule_mirror(ctx: Ctx) -> None:
         ctx.touch(m, fn)
         fnq = f"TimeReversedSolver.{name}"
         ps = func_params(fn)
-        tab_names = {p for p in ps if "tableau" in p} | {"stabilizer_tableau"}
+        tab_names = {p for p in ps if "tableau" in p} | _transformed_names(fn)
         col = "column" if name == "_change_pauli_type" and "column" in ps else None
         if name == "_change_pauli_type" and col is None:
             col = ps[3] if len(ps) > 3 else None
@@ -231,7 +241,7 @@ def rule_mirror(ctx: Ctx) -> None:
                 continue
             tag = next(iter(b.literals))
             handled.add(tag)
-            evs = [e for e in _events(b.body, {"tableau"}) if e.kind in ("T1", "T2")]
+            evs = [e for e in _events(b.body, {p_ for p_ in func_params(fn) if "tableau" in p_} | _transformed_names(fn)) if e.kind in ("T1", "T2")]
             kind, want = tag_gate.get(tag, (None, None))
             if want is None:
                 ctx.fail("order.mirror", m, b.node, f"_add_gates_from_str handles unknown tag '{tag}'", func="TimeReversedSolver._add_gates_from_str")
@@ -267,11 +277,10 @@ def rule_mirror(ctx: Ctx) -> None:
 
 
 # one named exception, read before arming (Engler et al.: the unchecked path relies on a shape invariant)
-GUARDED_FIRST_INVARIANT = {
-    ("TimeReversedSolver._time_reversed_measurement", "emitter_indices"):
-        "emitter_indices[0] is unguarded, but the generator comes from `possible_generators` (rows that are trivial on all photons, "
-        "length asserted): a valid tableau has no identity row, so such a row acts on at least one emitter",
-}
+GUARDED_FIRST_INVARIANT = (
+    "the first emitter index is taken unguarded, but the generator handed to the index helper is itself the first element of a "
+    "length-checked index array (`possible_generators`: rows that are trivial on all photons): a valid tableau has no identity row, so "
+    "such a row acts on at least one emitter")
 
 
 def rule_guarded_first(ctx: Ctx) -> None:
@@ -297,6 +306,16 @@ def rule_guarded_first(ctx: Ctx) -> None:
                 src = v.value if isinstance(v, ast.Subscript) else v
                 if isinstance(src, ast.Call) and (call_attr(src) in ("nonzero", "where", "setdiff1d") or call_attr(src) in array_helpers):
                     arrays[st.targets[0].id] = st
+        firsts = {}
+        for st in ast.walk(fn):
+            if isinstance(st, ast.Assign) and len(st.targets) == 1 and isinstance(st.targets[0], ast.Name):
+                v = st.value
+                while isinstance(v, ast.Call) and call_name(v) in ("int",) and v.args:
+                    v = v.args[0]
+                if isinstance(v, ast.Subscript) and isinstance(v.value, ast.Name) and v.value.id in arrays and norm(v.slice) == "0":
+                    a0 = v.value.id
+                    firsts[st.targets[0].id] = any(isinstance(g, (ast.Assert, ast.If, ast.While)) and f"len({a0})" in norm(g.test) and g.lineno <= st.lineno
+                                                   for g in ast.walk(fn))
         for node in ast.walk(fn):
             if isinstance(node, ast.Subscript) and isinstance(node.value, ast.Name) and node.value.id in arrays \
                     and isinstance(node.slice, ast.Constant) and node.slice.value == 0 and isinstance(node.ctx, ast.Load):
@@ -308,16 +327,25 @@ def rule_guarded_first(ctx: Ctx) -> None:
                         guarded = True
                     if isinstance(g, ast.For) and norm(g.iter) == arr and any(node is x for x in ast.walk(g)):
                         guarded = True
+                srcv = arrays[arr].value
+                srcc = srcv.value if isinstance(srcv, ast.Subscript) else srcv
+                callee = call_attr(srcc) or "?"
+                # shape invariant: every name argument of the helper call is the first element of a length-checked index array
+                inv = False
+                if call_attr(srcc) in array_helpers:
+                    for a_ in srcc.args:
+                        if isinstance(a_, ast.Name) and a_.id in firsts and firsts[a_.id]:
+                            inv = True
                 if guarded:
                     ctx.ok("guarded-first", m, node, what=f"{fnq}: {arr}[0] after a length check")
-                elif (fnq, arr) in GUARDED_FIRST_INVARIANT:
-                    ctx.fail("guarded-first", m, node, GUARDED_FIRST_INVARIANT[(fnq, arr)], func=fnq, advisory=True)
+                elif inv:
+                    ctx.fail("guarded-first", m, node, GUARDED_FIRST_INVARIANT, func=fnq, advisory=True)
                     ctx.ok("guarded-first", m, node, what="non-empty by a shape invariant (named exception)")
                 else:
                     ctx.fail("guarded-first", m, node,
                              f"{fnq} takes `{arr}[0]` of the index array `{short(arrays[arr].value, 60)}` without checking that it is non-empty; "
                              f"the sibling site `possible_generators[0]` asserts its length first. When no emitter takes part in the chosen "
                              f"generator (a photon that is an isolated vertex of the target) this raises IndexError", func=fnq,
-                             construct=f"{fnq}: unguarded {arr}[0]")
+                             construct=f"{fnq}: unguarded first element of {callee}(...)")
     if n == 0:
         raise AnalysisError("guarded-first: no first-element access found")
